@@ -1008,6 +1008,57 @@ def m_mu_write(E, st, fid, t, args, dest_ty):
     return out
 
 
+# raw-pointer spellings of the same four primitives (DESIGN.md §14.9): the pointer is a "tame" value
+# that can only be consumed by read / write / drop_in_place; everything else done with it is reported
+@model(['core::mem::maybe_uninit::MaybeUninit::<T>::as_ptr', 'core::mem::maybe_uninit::MaybeUninit::<T>::as_mut_ptr'],
+       'raw pointer to the slot; only read / write / drop_in_place through it are modelled')
+def m_mu_as_ptr(E, st, fid, t, args, dest_ty):
+    tg = _mu_target(E, st, args[0], t['callee']['name'])
+    if tg is None:
+        return ret(st, ('opq', ('rawptr',)))
+    return ret(st, ('rawslot', tg[0], tg[1], t['callee']['name'].endswith('_mut_ptr')))
+
+
+def _raw_target(E, st, v, prim):
+    if v[0] == 'rawslot':
+        return v[1], v[2]
+    E.violate('MODEL', 'unmodelled', prim, 'raw-pointer primitive applied to a pointer that is not a tracked slot pointer')
+    return None
+
+
+@model(['core::ptr::const_ptr::<impl *const T>::read', 'core::ptr::mut_ptr::<impl *mut T>::read', 'core::ptr::read'],
+       'UNSAFE: ptr.read() of a slot pointer == assume_init_read (O2; the slot is dead afterwards)')
+def m_ptr_read(E, st, fid, t, args, dest_ty):
+    tg = _raw_target(E, st, args[0], 'ptr::read')
+    if tg is None:
+        return ret(st, ('opq', ('rawread',)))
+    return ret(st, E.slot_read(st, tg[0], tg[1], 'ptr::read'))
+
+
+@model(['core::ptr::drop_in_place'], 'UNSAFE: drop_in_place of a slot pointer == assume_init_drop (O2)')
+def m_drop_in_place(E, st, fid, t, args, dest_ty):
+    tg = _raw_target(E, st, args[0], 'drop_in_place')
+    if tg is None:
+        return ret(st, UNIT)
+    v = E.slot_read(st, tg[0], tg[1], 'drop_in_place')
+    out = []
+    for kind, s in E.drop_value(st, v, t['effects']):
+        out.append((kind, s, UNIT if kind == 'ret' else None))
+    return out
+
+
+@model(['core::ptr::mut_ptr::<impl *mut T>::write', 'core::ptr::write'],
+       'UNSAFE: ptr.write(v) to a slot pointer == MaybeUninit::write (the slot must not be live)')
+def m_ptr_write(E, st, fid, t, args, dest_ty):
+    tg = _raw_target(E, st, args[0], 'ptr::write')
+    if tg is None:
+        return ret(st, UNIT)
+    out = []
+    for s in E.slot_write(st, tg[0], tg[1], args[1], 'ptr::write'):
+        out.append(('ret', s, UNIT))
+    return out
+
+
 @model('core::mem::maybe_uninit::MaybeUninit::<T>::uninit', 'an uninitialised value')
 def m_mu_uninit(E, st, fid, t, args, dest_ty):
     return ret(st, ('mu_uninit',))
